@@ -156,7 +156,10 @@ Theorem C17_extend_any_iterator :
     (fun _ s' => p = false /\ vabs cfg s' v (l ++ zseq (next_elem s) n) /\ next_elem s' = next_elem s + Z.of_nat n /\
                  (forall e, e < next_elem s -> ledger s' e = ledger s e))
     (fun s' => exists k, (k <= n)%nat /\ vabs cfg s' v (l ++ zseq (next_elem s) k) /\
-                         (forall e, e < next_elem s -> ledger s' e = ledger s e)).
+                         (forall e, e < next_elem s -> ledger s' e = ledger s e) /\
+                         next_elem s <= next_elem s' /\
+                         (forall e, next_elem s <= e < next_elem s' ->
+                                    In e (zseq (next_elem s) k) \/ ledger s' e = Dropped)).
 Proof. exact extend_abs. Qed.
 Print Assumptions C17_extend_any_iterator.
 
@@ -174,9 +177,10 @@ Theorem C17_retain_is_the_scripted_filter :
   post (retain cfg v sc s)
     (fun _ s' => p = false /\ vabs cfg s' v k /\ (forall e, In e j -> ledger s' e = Dropped) /\
                  (forall e, ~ In e j -> ledger s' e = ledger s e) /\ next_elem s' = next_elem s)
-    (fun s' => (p = true /\ exists l', Permutation l' l /\ vabs cfg s' v l' /\ ledger s' = ledger s) \/
-               (p = false /\ vabs cfg s' v k /\ (forall e, In e j -> ledger s' e = Dropped) /\
-                (forall e, ~ In e j -> ledger s' e = ledger s e))).
+    (fun s' => next_elem s' = next_elem s /\
+               ((p = true /\ exists l', Permutation l' l /\ vabs cfg s' v l' /\ ledger s' = ledger s) \/
+                (p = false /\ vabs cfg s' v k /\ (forall e, In e j -> ledger s' e = Dropped) /\
+                 (forall e, ~ In e j -> ledger s' e = ledger s e)))).
 Proof. exact retain_abs. Qed.
 
 (* what rspec computes: kept ++ rejected ++ unseen is a permutation of the input, and without a
